@@ -391,6 +391,82 @@ def gen_mixed_case(rng):
     return Case(scripts, gen_sched(rng, 3, est), rng.randint(1, 2 ** 31), "mixed")
 
 
+def waker_key(j):
+    """slab key (= bit) of the j-th waker created (1-based): keys that are multiples of 4096 are reserved"""
+    return j + (j - 1) // 4095
+
+
+def gen_huge_case(rng):
+    """More than 64 * 4095 = 262080 live wakers: the Vec of one summary slot holds two bitmaps.  Wakers in two different
+    bitmaps of ONE slot (and one in another slot) are woken from different threads against poll_wake.  The model is not
+    run on these cases (its slab is a function chain: quadratic in the number of wakers); the C11..C14 monitors are
+    evaluated on the real trace as usual."""
+    slot = rng.choice([0, 0, 1, 2, 5, 63])           # summary slot shared by the two bitmaps
+    other = rng.choice([s_ for s_ in (1, 2, 3, 40, 63) if s_ != slot])
+    per = 4095
+    # 1-based creation index of a waker in bitmap bm: bm*4095 + 1 .. (bm+1)*4095
+    def idx(bm):
+        return bm * per + rng.choice([1, 2, 63, 64, 65, 700, per - 1, per])
+    targets = [("lo", idx(slot)), ("hi", idx(slot + 64)), ("other", idx(other))]
+    if rng.random() < 0.4:
+        targets.append(("lo2", idx(slot)))
+    if rng.random() < 0.4:
+        targets.append(("hi2", idx(slot + 64)))
+    seen, tl = set(), []
+    for nme, j in sorted(targets, key=lambda x: x[1]):
+        if j not in seen:
+            seen.add(j)
+            tl.append((nme, j))
+    main, made, wid, names = [], 0, 1, {}
+    for nme, j in tl:
+        gap = j - 1 - made
+        while gap > 0:                                   # keep single commands moderate
+            k = min(gap, 100000)
+            main.append("fill %d" % k)
+            gap -= k
+        main.append("new %d" % wid)
+        names[nme] = wid
+        wid += 1
+        made = j
+    if rng.random() < 0.5:
+        main.append("fill %d" % rng.choice([1, 100, 5000]))
+    los = [names[n_] for n_ in ("lo", "lo2") if n_ in names]
+    his = [names[n_] for n_ in ("hi", "hi2") if n_ in names]
+    scripts = {}
+    layout = rng.choice(["split", "split", "split3", "one"])
+    if layout == "split":
+        scripts[1] = ["wake %d" % w for w in los]
+        scripts[2] = ["wake %d" % w for w in his]
+        if rng.random() < 0.7:
+            scripts[rng.choice([1, 2])].append("wake %d" % names["other"])
+    elif layout == "split3":
+        scripts[1] = ["wake %d" % w for w in los]
+        scripts[2] = ["wake %d" % w for w in his]
+        scripts[3] = ["wake %d" % names["other"]]
+    else:
+        al = ["wake %d" % w for w in los + his + [names["other"]]]
+        rng.shuffle(al)
+        scripts[1] = al
+        scripts[2] = ["wake %d" % rng.choice(his)]
+    for t in scripts:
+        if rng.random() < 0.3:
+            scripts[t].append("wake %d" % rng.choice(los + his))    # a second wake of an already pending waker
+    nt = len(scripts)
+    body = []
+    for _ in range(rng.randint(0, 3)):
+        body.append(rng.choice(["poll", "pollif", "pollif"]))
+    main += ["spawn"] * nt + body + ["join", rng.choice(["poll", "pollif"])]
+    if rng.random() < 0.5:
+        main.append(rng.choice(["poll", "pollif"]))
+    scripts[0] = main
+    est = 8 * sum(len(v) for v in scripts.values())
+    return Case(scripts, gen_sched(rng, nt, est), rng.randint(1, 2 ** 31), "huge/slot%d+%d/%s" % (slot, other, layout))
+
+
+def is_huge(case):
+    return case.kind.startswith("huge") or case.kind.startswith("corpus/huge")
+
+
 def gen_case(rng, prop):
     r = rng.random()
     if prop in ("C11", "C12"):
@@ -559,7 +635,7 @@ def run_cases(conc, driver, cases, tag, model_ok=True, explicit_tids=None):
     def mbatch(idx):
         out = {}
         if model_ok:
-            m, err = run_model_batch(driver, [(str(i), cases[i], results[i].tids) for i in idx])
+            m, err = run_model_batch(driver, [(str(i), cases[i], results[i].tids) for i in idx if not is_huge(cases[i])])
             out["model"] = m
         mon, err2 = monitor_batch(driver, [(str(i), results[i].real) for i in idx])
         out["mon"] = mon
@@ -570,7 +646,7 @@ def run_cases(conc, driver, cases, tag, model_ok=True, explicit_tids=None):
         for i in idx:
             r = results[i]
             r.mon = o["mon"].get(str(i))
-            if model_ok:
+            if model_ok and not is_huge(cases[i]):
                 r.model = o["model"].get(str(i), [])
                 r.diff = diff_traces(r.real, r.model)
     return results
@@ -703,10 +779,19 @@ def run(prop, tier, seed):
         for (name, _), r in zip(corp, rs):
             r.name = "corpus/" + name
         results += rs
-    done = 0
     dist = {}
+    nhuge = {"C11": {"quick": 8, "thorough": 60}, "C12": {"quick": 2, "thorough": 10}}.get(prop, {}).get(tier, 0)
+    if nhuge:
+        hrng = random.Random(seed * 104729 + 17)
+        hc = [gen_huge_case(hrng) for _ in range(nhuge)]
+        rs = run_cases(conc, driver, hc, "huge", model_ok)
+        for i, r in enumerate(rs):
+            r.name = "huge%d" % i
+            dist["huge"] = dist.get("huge", 0) + 1
+        results += rs
+    done = 0
     escalated = False
-    while done < n:
+    while done < n and not any(monitor_fails(r, prop) for r in results):
         k = min(500, n - done)
         cases = [gen_case(rng, prop) for _ in range(k)]
         rs = run_cases(conc, driver, cases, "g%d" % done, model_ok)
@@ -788,7 +873,8 @@ def run(prop, tier, seed):
             "scheduler shim harness/shim/verif_std.rs (baton controller; intercepts AtomicUsize, Mutex, Condvar, thread::spawn of src/sync/*.rs)",
             "axioms reported by Print Assumptions: %s" % (", ".join(audit["axioms"]) or "none (closed under the global context)")],
         "evaluations": len(results), "distinct_nontrivial": distinct,
-        "rule": "seeded scenarios (2-4 worker threads x 1-6 wakers in one leaf word / several words / across the 4096-slot bitmap boundary, channels, "
+        "rule": "seeded scenarios (2-4 worker threads x 1-6 wakers in one leaf word / several words / across the 4096-slot bitmap boundary, "
+                "'huge': > 262080 wakers so that one summary slot has two bitmaps - wakers in both and in another slot woken from different threads, channels, "
                 "piped threads) x schedules (seeded random, PCT priority schedules with 0-4 change points, bursty explicit prefixes) at the "
                 "granularity of one atomic/lock operation; distinct = distinct sequences of (thread, event kind) of the real trace",
         "traces_validated_against_impl": len([r for r in results if r.model is not None and not r.diff]),
@@ -801,7 +887,8 @@ def run(prop, tier, seed):
     ev.assumptions = [
         "A-SC: executions of the real code are sequentially consistent interleavings of its atomic/lock operations (all bitmap operations use ORDERING >= AcqRel, checked by C11_ordering); hardware/C11 weak memory is not modelled",
         "std Mutex/Condvar (no spurious wake-ups), thread spawn, panic unwinding, Arc, Vec/VecDeque, slab::Slab are modelled; the shim serialises the real threads",
-        "fewer than 2^32 handler slots; more than 262144 wakers (second bitmap per slot) is covered by the proofs but not by the correspondence runs",
+        "fewer than 2^32 handler slots; more than 262080 wakers (second bitmap per summary slot): covered by the proofs and by the 'huge' scenario family "
+        "(real code + monitors on the real trace); the event-by-event correspondence with the model is not run on those cases",
     ]
     ev.write()
     return rc
